@@ -13,7 +13,7 @@ import (
 	"math/rand"
 	"os"
 	"path/filepath"
-	"sort"
+	"runtime"
 	"strconv"
 	"strings"
 	"sync"
@@ -32,7 +32,10 @@ import (
 // chunks are listed in arrival order; <n> records; <L> = 0 random sequence lengths 1..70, N = every sequence
 // N bases long, b<d> = the first sequence is as long as needed for the formatted chunk to be the shortest one
 // of at least 4096+d bytes (d written m<k> / p<k>): the chunk sizes straddle the bufio buffer of Wfile.
-// p=1: the writer is reached through Write…ToFile with a paired file (two files kept in step).
+// p=1: the writer is reached through Write…ToFile with a paired file (two files kept in step); the result then
+// carries out2=<second file> and the model line a section ` P <chunks of the mates>`.
+// pl=<n> (n>0): the batches reach the writer through a real pipeline stage of n worker goroutines
+// (IBioSequence.MakeISliceWorker) whose scheduling decides the arrival order: nothing is forced.
 type c04 struct{}
 
 func init() { props["C04"] = c04{} }
@@ -149,7 +152,7 @@ func (v c04val) enc(sb *strings.Builder) {
 		sb.WriteString("s" + hx0(v.s) + ".")
 	case 'i':
 		if v.i < 0 {
-			sb.WriteString("in" + strconv.Itoa(-v.i) + ".")
+			sb.WriteString("in" + strconv.Itoa(v.i)[1:] + ".")
 		} else {
 			sb.WriteString("i" + strconv.Itoa(v.i) + ".")
 		}
@@ -197,6 +200,9 @@ var c04nasty = []string{"a,b", "x\"y", " lead", "\ttab", "multi\nline", "cr\rlf"
 // strings on which the unrepaired JSONRecord produced invalid JSON / panicked
 var c04hostile = []string{"a\x01b", "\b\f", "\x1f", "\x7f", "a\\u0041b", "a\\ub", "\\u", "\\\\u0031", "\x00", "\\u00e9\\n"}
 
+// integers at the boundaries of the decimal printer (digit counts, sign, extremes of int64)
+var c04ints = []int{0, -1, 1, 9, 10, -9, -10, 99, 100, 101, -100, 1000000, 999999, 1 << 31, -(1 << 31), 1<<53 + 1, 1<<63 - 1, -(1 << 63), 1234567890123456789}
+
 var c04keys = []string{"note", "k,ey", "q\"k", "sample", "a b", "tag", "zz", "definition", "scientific_name", "é"}
 
 func c04randVal(r *rand.Rand, flavour, depth int) c04val {
@@ -208,6 +214,9 @@ func c04randVal(r *rand.Rand, flavour, depth int) c04val {
 	case k < 5 || depth > 2:
 		return vs(pool[r.Intn(len(pool))])
 	case k == 5:
+		if r.Intn(3) == 0 {
+			return vi(c04ints[r.Intn(len(c04ints))])
+		}
 		return vi(r.Intn(2000) - 1000)
 	case k == 6:
 		return vb(r.Intn(2) == 0)
@@ -318,6 +327,7 @@ type c04case struct {
 	keys     []string
 	flavour  int
 	paired   bool
+	pl       int
 	arrival  []c04chunk
 	withQual bool
 }
@@ -364,6 +374,12 @@ func c04parse(line string) (*c04case, bool) {
 				c.se = v == "1"
 			case "p":
 				c.paired = v == "1"
+			case "pl":
+				n, err := strconv.Atoi(v)
+				if err != nil || n < 0 || n > 64 {
+					return nil, false
+				}
+				c.pl = n
 			case "q":
 				c.withQual = v == "1"
 			case "csv":
@@ -465,6 +481,46 @@ func (c *c04case) records(ch c04chunk, opt obiformats.Options) []c04rec {
 	return rs
 }
 
+// describe is the description of one batch for the model: <order>:<rec>;<rec>…
+func (c *c04case) describe(order int, rs []c04rec, opt obiformats.Options) string {
+	var sb strings.Builder
+	fmt.Fprintf(&sb, "%d:", order)
+	for j, rc := range rs {
+		if j > 0 {
+			sb.WriteByte(';')
+		}
+		q := "~"
+		if rc.qual != nil && len(rc.qual) > 0 {
+			q = hx(rc.qual)
+		}
+		info := ""
+		if c.w == "fasta" || c.w == "fastq" {
+			info = opt.FormatFastSeqHeader()(rc.build())
+		}
+		sb.WriteString(hx([]byte(rc.id)) + "," + hx(rc.seq) + "," + q + "," + hx([]byte(info)) + ",")
+		c04val{kind: 'm', m: rc.ann}.enc(&sb)
+	}
+	return sb.String()
+}
+
+// c04jitter is the worker of the pipeline stage: it hands the batch on unchanged after a pseudo-random number of
+// yields (and sometimes a short sleep), so that the worker goroutines overtake each other.
+func c04jitter(sl obiseq.BioSequenceSlice) (obiseq.BioSequenceSlice, error) {
+	h := uint32(2166136261)
+	if len(sl) > 0 {
+		for _, b := range []byte(sl[0].Id()) {
+			h = (h ^ uint32(b)) * 16777619
+		}
+	}
+	for i := uint32(0); i < h%7; i++ {
+		runtime.Gosched()
+	}
+	if h%11 == 0 {
+		time.Sleep(time.Duration(20+h%200) * time.Microsecond)
+	}
+	return sl, nil
+}
+
 func c04batch(order int, rs []c04rec) obiiter.BioSequenceBatch {
 	sl := obiseq.MakeBioSequenceSlice()
 	for _, r := range rs {
@@ -499,6 +555,7 @@ func (c04) Gen(rng *rand.Rand, tier string, emit func(string)) {
 		workers, flavour int
 		z, se, paired    bool
 		csv              string
+		pl               int
 	}
 	one := func(w string, g gopt, ch []c04chunk) {
 		parts := make([]string, len(ch))
@@ -525,7 +582,11 @@ func (c04) Gen(rng *rand.Rand, tier string, emit func(string)) {
 		if g.workers == 0 {
 			g.workers = 1
 		}
-		emit(fmt.Sprintf("%s w=%d z=%d se=%d%s f=%d p=%d %s", w, g.workers, b2(g.z), b2(g.se), extra, g.flavour, b2(g.paired), strings.Join(parts, " ")))
+		pl := ""
+		if g.pl > 0 {
+			pl = fmt.Sprintf(" pl=%d", g.pl)
+		}
+		emit(fmt.Sprintf("%s w=%d z=%d se=%d%s f=%d p=%d%s %s", w, g.workers, b2(g.z), b2(g.se), extra, g.flavour, b2(g.paired), pl, strings.Join(parts, " ")))
 	}
 	simple := func(orders []int, sizes map[int]int) []c04chunk {
 		ch := make([]c04chunk, len(orders))
@@ -599,6 +660,12 @@ func (c04) Gen(rng *rand.Rand, tier string, emit func(string)) {
 			}
 			one(w, gopt{workers: nw, flavour: 2, csv: "csv=111111 na=4e41 keys=" + hx0("note") + "/" + hx0("sample")}, ch)
 		}
+		// paired output with skipped empty sequences (files out of step by construction: compared with the model only)
+		one(w, gopt{flavour: 1, paired: true, se: true}, []c04chunk{{1, 2, "e"}, {0, 3, "e"}, {2, 1, "0"}})
+		one(w, gopt{flavour: 1, paired: true, se: false}, []c04chunk{{0, 2, "e"}})
+		// paired output, late batch 0 and empty batches, records with annotations of every kind
+		one(w, gopt{flavour: 3, paired: true, csv: "csv=111111 na=4e41 keys=" + hx0("note") + "/" + hx0("tag")}, simple([]int{3, 2, 1, 0, 4}, map[int]int{0: 2, 1: 0, 2: 3, 3: 1, 4: 0}))
+		one(w, gopt{flavour: 2, paired: true, workers: 4, z: true, csv: "csv=010011 na=2d keys=" + hx0("sample")}, simple([]int{0, 1, 2, 3, 4, 5}, map[int]int{0: 0, 1: 2, 2: 2, 3: 0, 4: 3, 5: 1}))
 		// paired output: two files kept in step
 		one(w, gopt{flavour: 1, paired: true}, simple([]int{1, 0, 2}, map[int]int{0: 2, 1: 1, 2: 0}))
 		one(w, gopt{flavour: 2, paired: true, z: true}, []c04chunk{{0, 1, "0"}, {2, 2, "3000"}, {1, 1, "0"}})
@@ -659,6 +726,27 @@ func (c04) Gen(rng *rand.Rand, tier string, emit func(string)) {
 			}
 		}
 	}
+	if tier == "thorough" {
+		// writers fed by a real multi-worker pipeline stage (arrival order decided by the scheduler), plain and compressed,
+		// up to 200 batches, with 1..16 formatting workers; some of them paired
+		for _, w := range writers {
+			for i, nbat := range []int{200, 200, 200, 200, 100, 100, 100, 100, 50, 50, 50, 50, 7, 3} {
+				var ch []c04chunk
+				for k := 0; k < nbat; k++ {
+					c := c04chunk{k, rng.Intn(4), "0"}
+					if rng.Intn(40) == 0 {
+						c.l = strconv.Itoa(1500 + rng.Intn(3000))
+					}
+					ch = append(ch, c)
+				}
+				g := gopt{workers: []int{1, 3, 8, 16}[rng.Intn(4)], pl: []int{2, 4, 8, 16}[i%4], flavour: 1 + rng.Intn(3), z: i%2 == 1, csv: randCsv()}
+				if i%5 == 4 {
+					g.paired = true
+				}
+				one(w, g, ch)
+			}
+		}
+	}
 	n := 360
 	if tier == "thorough" {
 		n = 1500
@@ -692,9 +780,12 @@ func (c04) Gen(rng *rand.Rand, tier string, emit func(string)) {
 				ch[rng.Intn(nb)].l = "e"
 			}
 		}
-		if rng.Intn(12) == 0 && !g.se {
-			// (with skipped empty sequences the two files of a pair are not in step: outside the property)
+		if rng.Intn(8) == 0 {
+			// (with skipped empty sequences the two files of a pair may be out of step: then only the model comparison applies)
 			g.paired = true
+		}
+		if tier == "thorough" && rng.Intn(6) == 0 {
+			g.pl = 2 + rng.Intn(7)
 		}
 		one(w, g, ch)
 	}
@@ -760,7 +851,9 @@ func (c04) Exec(line string) (string, []Fail) {
 	descs := make([][]c04rec, nb)   // arrival order
 	byOrder := make([][]c04rec, nb) // batch order
 	texts := map[int][]byte{}
-	var model []string
+	var model, modelMates []string
+	mateDescs := make([][]c04rec, nb)
+	matesByOrder := make([][]c04rec, nb)
 	fatalFmt := false
 	small, large := false, false
 	for i, a := range c.arrival {
@@ -787,24 +880,23 @@ func (c04) Exec(line string) (string, []Fail) {
 		if len(t) >= 4094 && len(t) <= 4098 {
 			stat(fmt.Sprintf("chunk:len=%d", len(t)))
 		}
-		var sb strings.Builder
-		fmt.Fprintf(&sb, "%d:", a.order)
-		for j, rc := range rs {
-			if j > 0 {
-				sb.WriteByte(';')
+		model = append(model, c.describe(a.order, rs, opt))
+		if c.paired {
+			// the mate of record (k, j) is record (k+1000, j) under the identifier of (k, j)
+			ms := make([]c04rec, len(rs))
+			for j := range ms {
+				ms[j] = c04Record(a.order+1000, j, 0, c.flavour, c.withQual)
+				ms[j].id = rs[j].id
 			}
-			q := "~"
-			if rc.qual != nil && len(rc.qual) > 0 {
-				q = hx(rc.qual)
+			mateDescs[i] = ms
+			if a.order < nb {
+				matesByOrder[a.order] = ms
 			}
-			info := ""
-			if w == "fasta" || w == "fastq" {
-				info = opt.FormatFastSeqHeader()(rc.build())
+			if _, r := c.format(a.order, ms, opt); r != "ok" {
+				fatalFmt = true
 			}
-			sb.WriteString(hx([]byte(rc.id)) + "," + hx(rc.seq) + "," + q + "," + hx([]byte(info)) + ",")
-			c04val{kind: 'm', m: rc.ann}.enc(&sb)
+			modelMates = append(modelMates, c.describe(a.order, ms, opt))
 		}
-		model = append(model, sb.String())
 	}
 	if small && large {
 		stat("case:small+large chunks")
@@ -829,6 +921,18 @@ func (c04) Exec(line string) (string, []Fail) {
 		gen = line[:i]
 	}
 	caseOverride = fmt.Sprintf("%s | sh=%d se=%d csv=%s na=%s keys=%s C %s", gen, shift, se, c.csvBits, hx([]byte(c.na)), keys, strings.Join(model, " "))
+	if c.paired {
+		caseOverride += " P " + strings.Join(modelMates, " ")
+	}
+	if c.pl > 0 {
+		stat("pipeline-fed")
+		if c.z {
+			stat("pipeline-fed compressed")
+		}
+		if nb >= 100 {
+			stat("pipeline-fed >=100 batches")
+		}
+	}
 	if nb < 2 {
 		caseTrivial = true
 	}
@@ -847,13 +951,7 @@ func (c04) Exec(line string) (string, []Fail) {
 			for i, a := range c.arrival {
 				b := c04batch(a.order, descs[i])
 				if c.paired {
-					// the mate of record (k, j) is record (k+1000, j)
-					mates := make([]c04rec, len(descs[i]))
-					for j := range mates {
-						mates[j] = c04Record(a.order+1000, j, 0, c.flavour, c.withQual)
-						mates[j].id = descs[i][j].id
-					}
-					mb := c04batch(a.order, mates)
+					mb := c04batch(a.order, mateDescs[i])
 					for j, s := range b.Slice() {
 						s.PairTo(mb.Slice()[j])
 					}
@@ -863,12 +961,17 @@ func (c04) Exec(line string) (string, []Fail) {
 			it.Done()
 		}()
 		go it.WaitAndClose()
+		if c.paired {
+			it.MarkAsPaired()
+		}
+		if c.pl > 0 {
+			it = it.MakeISliceWorker(c04jitter, false, c.pl)
+		}
 		var ni obiiter.IBioSequence
 		var err error
 		var raw []byte
 		closes, afterClose := 1, 0
 		if c.paired {
-			it.MarkAsPaired()
 			dir, e := os.MkdirTemp("", "c04p")
 			if e != nil {
 				return "tmp-err"
@@ -949,20 +1052,137 @@ func (c04) Exec(line string) (string, []Fail) {
 				r += " rows=" + strings.Join(rr, "/")
 			}
 		}
+		if w == "json" {
+			if t, ok := c04compactJSON(raw); ok {
+				r += " dec=" + hx([]byte(t))
+			} else {
+				r += " dec=error"
+			}
+		}
+		if c.paired {
+			r += " out2=" + hx(pairedOut)
+		}
 		return r
 	})
 	var fails []Fail
 	if strings.HasPrefix(res, "closes=") {
-		fails = c04Oracle(c, opt, res, byOrder, texts, rows, pairedOut)
+		fails = c04Oracle(c, opt, res, byOrder, matesByOrder, texts, rows, pairedOut)
 	} else {
 		fails = []Fail{{Sig: w + ".outcome", Text: "writer did not complete: " + res}}
 	}
 	return res, fails
 }
 
+// c04compactJSON: what encoding/json decodes from the text, printed back in the compact canonical form of the
+// model (Json.encVal): members in file order, number literals as written, strings with the escapes of the C02 encoder.
+func c04compactJSON(raw []byte) (string, bool) {
+	dec := json.NewDecoder(bytes.NewReader(raw))
+	dec.UseNumber()
+	var sb strings.Builder
+	if err := c04compactVal(dec, &sb); err != nil {
+		return "", false
+	}
+	if _, err := dec.Token(); err != io.EOF {
+		return "", false
+	}
+	return sb.String(), true
+}
+
+func c04compactStr(sb *strings.Builder, s string) {
+	sb.WriteByte('"')
+	for i := 0; i < len(s); i++ {
+		c := s[i]
+		switch {
+		case c == '"':
+			sb.WriteString("\\\"")
+		case c == '\\':
+			sb.WriteString("\\\\")
+		case c == '\n':
+			sb.WriteString("\\n")
+		case c == '\r':
+			sb.WriteString("\\r")
+		case c == '\t':
+			sb.WriteString("\\t")
+		case c < 0x20:
+			fmt.Fprintf(sb, "\\u00%02x", c)
+		case c == 0xE2 && i+2 < len(s) && s[i+1] == 0x80 && (s[i+2] == 0xA8 || s[i+2] == 0xA9):
+			fmt.Fprintf(sb, "\\u202%d", 8+int(s[i+2]-0xA8))
+			i += 2
+		default:
+			sb.WriteByte(c)
+		}
+	}
+	sb.WriteByte('"')
+}
+
+func c04compactVal(dec *json.Decoder, sb *strings.Builder) error {
+	t, err := dec.Token()
+	if err != nil {
+		return err
+	}
+	switch v := t.(type) {
+	case json.Delim:
+		switch v {
+		case '[':
+			sb.WriteByte('[')
+			for first := true; dec.More(); first = false {
+				if !first {
+					sb.WriteByte(',')
+				}
+				if err := c04compactVal(dec, sb); err != nil {
+					return err
+				}
+			}
+			if _, err := dec.Token(); err != nil {
+				return err
+			}
+			sb.WriteByte(']')
+		case '{':
+			sb.WriteByte('{')
+			for first := true; dec.More(); first = false {
+				if !first {
+					sb.WriteByte(',')
+				}
+				k, err := dec.Token()
+				if err != nil {
+					return err
+				}
+				ks, ok := k.(string)
+				if !ok {
+					return fmt.Errorf("key")
+				}
+				c04compactStr(sb, ks)
+				sb.WriteByte(':')
+				if err := c04compactVal(dec, sb); err != nil {
+					return err
+				}
+			}
+			if _, err := dec.Token(); err != nil {
+				return err
+			}
+			sb.WriteByte('}')
+		default:
+			return fmt.Errorf("delim")
+		}
+	case string:
+		c04compactStr(sb, v)
+	case json.Number:
+		sb.WriteString(v.String())
+	case bool:
+		if v {
+			sb.WriteString("true")
+		} else {
+			sb.WriteString("false")
+		}
+	case nil:
+		sb.WriteString("null")
+	}
+	return nil
+}
+
 func c04collapse(s string) string { return strings.ReplaceAll(s, "\r\n", "\n") }
 
-func c04Oracle(c *c04case, opt obiformats.Options, res string, records [][]c04rec, texts map[int][]byte, rows [][]string, pairedOut []byte) []Fail {
+func c04Oracle(c *c04case, opt obiformats.Options, res string, records, mates [][]c04rec, texts map[int][]byte, rows [][]string, pairedOut []byte) []Fail {
 	w := c.w
 	var fails []Fail
 	f := strings.Fields(res)
@@ -995,17 +1215,28 @@ func c04Oracle(c *c04case, opt obiformats.Options, res string, records [][]c04re
 		}
 		fails = append(fails, Fail{Sig: sig, Text: fmt.Sprintf("output (%d bytes) is not the chunks 0..%d in order (%d bytes); first difference at byte %d", len(out), len(records)-1, len(ref), at)})
 	}
-	var all []c04rec
-	for _, b := range records {
-		for _, r := range b {
+	var all, allMates []c04rec
+	skipped := false
+	for k, b := range records {
+		for j, r := range b {
 			if len(r.seq) == 0 && (w == "fasta" || w == "fastq") {
+				skipped = true
 				continue // skipped (se=1)
 			}
 			all = append(all, r)
+			if c.paired {
+				allMates = append(allMates, mates[k][j])
+			}
 		}
 	}
 	if c.paired {
-		fails = append(fails, c04Paired(c, out, pairedOut, len(all))...)
+		if skipped {
+			// a record left out of the first file while its mate is written: the files are out of step by
+			// construction (Props.C04.paired_skip_empty_out_of_step); both files are still compared with the model
+			stat("paired:skip-empty (files out of step, model comparison only)")
+		} else {
+			fails = append(fails, c04Paired(c, out, pairedOut, all, allMates)...)
+		}
 	}
 	switch w {
 	case "json":
@@ -1021,20 +1252,30 @@ func c04Oracle(c *c04case, opt obiformats.Options, res string, records [][]c04re
 			if o["id"] != all[i].id || sq != string(all[i].seq) {
 				return append(fails, Fail{Sig: "json.records", Text: fmt.Sprintf("object %d is %v, expected record %s", i, o["id"], all[i].id)})
 			}
+			wantQ := ""
+			if len(all[i].qual) > 0 {
+				wantQ = all[i].build().QualitiesString()
+			}
+			if q, _ := o["qualities"].(string); q != wantQ {
+				return append(fails, Fail{Sig: "json.records", Text: fmt.Sprintf("object %d has qualities %q, expected %q", i, q, wantQ)})
+			}
+			nkeys := 1
+			for _, k := range []string{"sequence", "qualities", "annotations"} {
+				if _, ok := o[k]; ok {
+					nkeys++
+				}
+			}
+			if len(o) != nkeys {
+				return append(fails, Fail{Sig: "json.records", Text: fmt.Sprintf("object %d has unexpected members: %d", i, len(o))})
+			}
 			ann, _ := o["annotations"].(map[string]interface{})
 			if len(ann) != len(all[i].ann) {
 				return append(fails, Fail{Sig: "json.annotations", Text: fmt.Sprintf("object %d has %d annotations, record %s has %d", i, len(ann), all[i].id, len(all[i].ann))})
 			}
 			for _, e := range all[i].ann {
-				switch e.v.kind {
-				case 's':
-					if ann[e.k] != e.v.s {
-						return append(fails, Fail{Sig: "json.annotations", Text: fmt.Sprintf("object %d key %q is %q, expected %q", i, e.k, ann[e.k], e.v.s)})
-					}
-				case 'i':
-					if ann[e.k] != float64(e.v.i) {
-						return append(fails, Fail{Sig: "json.annotations", Text: fmt.Sprintf("object %d key %q is %v, expected %d", i, e.k, ann[e.k], e.v.i)})
-					}
+				if !c04sameValue(ann[e.k], e.v) {
+					stat("json:annotation-mismatch")
+					return append(fails, Fail{Sig: "json.annotations", Text: fmt.Sprintf("object %d key %q is %v, expected %v", i, e.k, ann[e.k], e.v.toGo())})
 				}
 			}
 		}
@@ -1109,55 +1350,129 @@ func c04readSeqFile(w string, out []byte) (ids, seqs []string) {
 	return
 }
 
-// c04Paired: the two files hold the same number of records with the same identifiers in the same order.
-func c04Paired(c *c04case, fwd, rev []byte, n int) []Fail {
-	idsOf := func(b []byte) ([]string, bool) {
+// c04sameValue: the value decoded by encoding/json is the annotation value (numbers by value, nested lists and maps)
+func c04sameValue(got interface{}, want c04val) bool {
+	switch want.kind {
+	case 's':
+		g, ok := got.(string)
+		return ok && g == want.s
+	case 'i':
+		g, ok := got.(float64)
+		return ok && g == float64(want.i)
+	case 'b':
+		g, ok := got.(bool)
+		return ok && g == want.b
+	case 'l':
+		g, ok := got.([]interface{})
+		if !ok || len(g) != len(want.l) {
+			return false
+		}
+		for i := range g {
+			if !c04sameValue(g[i], want.l[i]) {
+				return false
+			}
+		}
+		return true
+	default:
+		g, ok := got.(map[string]interface{})
+		if !ok || len(g) != len(want.m) {
+			return false
+		}
+		for _, e := range want.m {
+			x, ok := g[e.k]
+			if !ok || !c04sameValue(x, e.v) {
+				return false
+			}
+		}
+		return true
+	}
+}
+
+// c04Paired: the two files hold the same number of records; record i of the second file is the mate of record i
+// of the first one (same identifier, the mate's sequence).
+func c04Paired(c *c04case, fwd, rev []byte, all, mates []c04rec) []Fail {
+	n := len(all)
+	// identifiers and sequences of a file (seqs nil when the format does not show them)
+	read := func(b []byte) (ids, seqs []string, ok bool) {
 		switch c.w {
 		case "fasta", "fastq":
-			ids, _ := c04readSeqFile(c.w, b)
-			return ids, true
+			ids, seqs = c04readSeqFile(c.w, b)
+			return ids, seqs, true
 		case "json":
 			var arr []map[string]interface{}
 			if json.Unmarshal(b, &arr) != nil {
-				return nil, false
+				return nil, nil, false
 			}
-			var ids []string
 			for _, o := range arr {
 				s, _ := o["id"].(string)
+				q, _ := o["sequence"].(string)
 				ids = append(ids, s)
+				seqs = append(seqs, q)
 			}
-			return ids, true
+			return ids, seqs, true
 		default:
 			rows, err := csv.NewReader(bytes.NewReader(b)).ReadAll()
 			if err != nil || len(rows) == 0 {
-				return nil, err == nil && n == 0
+				return nil, nil, err == nil && n == 0
 			}
-			if c.csvBits[0] != '1' {
-				return nil, true
+			idc, sqc := -1, -1
+			for j, h := range rows[0] {
+				if h == "id" && idc < 0 && c.csvBits[0] == '1' && j == 0 {
+					idc = j
+				}
 			}
-			var ids []string
+			if c.csvBits[4] == '1' {
+				sqc = len(rows[0]) - 1
+				if c.csvBits[5] == '1' {
+					sqc--
+				}
+			}
 			for _, r := range rows[1:] {
-				ids = append(ids, r[0])
+				if idc >= 0 {
+					ids = append(ids, r[idc])
+				}
+				if sqc >= 0 {
+					seqs = append(seqs, r[sqc])
+				}
 			}
-			return ids, true
+			if idc < 0 {
+				ids = nil
+			}
+			if sqc < 0 {
+				seqs = nil
+			}
+			if idc < 0 && sqc < 0 {
+				return nil, nil, len(rows)-1 == n
+			}
+			return ids, seqs, true
 		}
 	}
-	a, ok1 := idsOf(fwd)
-	b, ok2 := idsOf(rev)
+	a, sa, ok1 := read(fwd)
+	b, sb, ok2 := read(rev)
 	if !ok1 || !ok2 {
 		return []Fail{{Sig: c.w + ".paired", Text: "a file of the pair cannot be read back"}}
 	}
-	if c.w == "csv" && c.csvBits[0] != '1' {
-		return nil
-	}
-	sort.Strings(nil)
-	if len(a) != len(b) || len(a) != n {
-		return []Fail{{Sig: c.w + ".paired", Text: fmt.Sprintf("forward file has %d records, reverse file %d, %d written", len(a), len(b), n)}}
-	}
-	for i := range a {
-		if a[i] != b[i] {
-			return []Fail{{Sig: c.w + ".paired", Text: fmt.Sprintf("record %d: forward %s, reverse %s", i, a[i], b[i])}}
+	if a != nil || c.w != "csv" {
+		if len(a) != len(b) || len(a) != n {
+			return []Fail{{Sig: c.w + ".paired", Text: fmt.Sprintf("forward file has %d records, reverse file %d, %d written", len(a), len(b), n)}}
 		}
+		for i := range a {
+			if a[i] != b[i] || a[i] != all[i].id {
+				return []Fail{{Sig: c.w + ".paired", Text: fmt.Sprintf("record %d: forward %s, reverse %s, written %s", i, a[i], b[i], all[i].id)}}
+			}
+		}
+	}
+	if sa != nil || c.w != "csv" {
+		if len(sa) != n || len(sb) != n {
+			return []Fail{{Sig: c.w + ".paired", Text: fmt.Sprintf("forward file has %d sequences, reverse file %d, %d written", len(sa), len(sb), n)}}
+		}
+		for i := range sa {
+			if sa[i] != string(all[i].seq) || sb[i] != string(mates[i].seq) {
+				stat("paired:mate-mismatch")
+				return []Fail{{Sig: c.w + ".paired", Text: fmt.Sprintf("record %d (%s): the second file does not hold the mate of the record of the first file", i, all[i].id)}}
+			}
+		}
+		stat("paired:mates checked")
 	}
 	return nil
 }
